@@ -505,6 +505,9 @@ pub(crate) struct DrawState {
     pub(crate) move_cursor: bool,
     /// Controls how the multi progress is aligned if some of its progress bars get removed, default is `Top`
     pub(crate) alignment: MultiProgressAlignment,
+    /// True if the previous draw left the cursor on the row below the drawn rows instead of on
+    /// the last of them (bottom alignment with nothing left to print below the cleared rows).
+    cursor_below: bool,
 }
 
 impl DrawState {
@@ -521,14 +524,20 @@ impl DrawState {
             return Ok(());
         }
 
+        // The cursor is on the last of the rows drawn at the previous tick, or on the row below them
+        let up = match self.cursor_below {
+            true => bar_count.as_usize(),
+            false => bar_count.as_usize().saturating_sub(1),
+        };
+
         if !self.lines.is_empty() && self.move_cursor {
             // Move up to first line (assuming the last line doesn't contain a '\n') and then move to then front of the line
-            term.move_cursor_up(bar_count.as_usize().saturating_sub(1))?;
+            term.move_cursor_up(up)?;
             term.write_str("\r")?;
         } else {
             // Fork of console::clear_last_lines that assumes that the last line doesn't contain a '\n'
             let n = bar_count.as_usize();
-            term.move_cursor_up(n.saturating_sub(1))?;
+            term.move_cursor_up(up)?;
             for i in 0..n {
                 term.clear_line()?;
                 if i + 1 != n {
@@ -605,6 +614,8 @@ impl DrawState {
 
         term.flush()?;
         *bar_count = real_height + shift;
+        // Each of the blank lines written for the shift ends in a newline
+        self.cursor_below = self.lines.is_empty() && shift > VisualLines::default();
 
         Ok(())
     }
